@@ -541,14 +541,13 @@ func runCase(t *testing.T, in *c09Input) c09Obs {
 
 // ---------------------------------------------------------------- generator
 
-var transferKinds = []string{"call_bank", "est_bank", "trace_bank", "call_xfer", "est_xfer", "call_bank_other", "sim_evm", "sim_evm_bank", "sim_bank"}
+// kinds that perform a unibi bank operation (the only requests that reach Keeper.Bank.StateDB on the unchanged tree)
+var bankingKinds = []string{"call_bank", "est_bank", "trace_bank", "sim_evm", "sim_evm_bank", "sim_bank"}
+var plainKinds = []string{"call_xfer", "est_xfer", "call_bank_other"}
 var readKinds = []string{"call_read", "grpc_bank", "grpc_evm_balance", "grpc_funtoken", "grpc_oracle"}
 
-func genQuery(r *Rng) c09Query {
-	if r.Chance(1, 4) {
-		return c09Query{Kind: readKinds[r.Intn(len(readKinds))], To: r.Range(0, 3)}
-	}
-	q := c09Query{Kind: transferKinds[r.Intn(len(transferKinds))], To: r.Range(2, 3), Amt: int64(r.Range(1, 9)) * 1_000_000}
+func genQuery(r *Rng, kinds []string) c09Query {
+	q := c09Query{Kind: kinds[r.Intn(len(kinds))], To: r.Range(2, 3), Amt: int64(r.Range(1, 9)) * 1_000_000}
 	if r.Chance(1, 5) {
 		q.To = 0 // the contract being created by the in-flight tx
 	}
@@ -580,9 +579,22 @@ func genCase(r *Rng) c09Input {
 	default:
 		in.Point = "interblock"
 	}
-	nq := r.Pick(0, 6, 2, 1)
+	// at most ONE request that performs a unibi bank operation (so that a finding names one request kind),
+	// surrounded by any number of others
+	nq := r.Pick(0, 6, 3, 1)
+	bankAt := -1
+	if r.Chance(3, 5) {
+		bankAt = r.Intn(nq)
+	}
 	for i := 0; i < nq; i++ {
-		in.Queries = append(in.Queries, genQuery(r))
+		switch {
+		case i == bankAt:
+			in.Queries = append(in.Queries, genQuery(r, bankingKinds))
+		case r.Chance(1, 2):
+			in.Queries = append(in.Queries, genQuery(r, plainKinds))
+		default:
+			in.Queries = append(in.Queries, genQuery(r, readKinds))
+		}
 	}
 	return in
 }
@@ -594,7 +606,7 @@ func openers() []c09Input {
 		return c09Input{Value: 0, Bal: [3]int64{50_000_000, 0, 0}, Steps: y, Point: point, Queries: []c09Query{{Kind: kind, To: to, Amt: 5_000_000}}}
 	}
 	out := []c09Input{mk("call_bank", "yield", 2)}
-	for _, k := range append(append([]string{}, transferKinds[1:]...), readKinds...) {
+	for _, k := range append(append(append([]string{}, bankingKinds[1:]...), plainKinds...), readKinds...) {
 		out = append(out, mk(k, "yield", 2))
 	}
 	for _, p := range []string{"pre", "post", "interblock"} {
